@@ -547,6 +547,9 @@ fn big_dec_events<F: Fam>(out: &mut Out, tier: &str) {
 pub fn record_dec3(out: &mut Out, tier: &str, seed: u64) {
     big_dec_events::<V3>(out, tier);
     big_dec_events::<V5>(out, tier);
+    // valid frames with extreme values and the large-class frames, spelled by the harness (not by the library's encoder)
+    crate::accept::large_class_for("v3", &mut |_m, b, _bad| dec3_event::<V3>(out, b));
+    crate::accept::large_class_for("v5", &mut |_m, b, _bad| dec3_event::<V5>(out, b));
     let n = if tier == "thorough" { 150000 } else { 5000 };
     let mut rng = Rng::new(seed ^ 0xC06);
     let mut b = Budget { big: 60, huge: 0 };
